@@ -72,6 +72,9 @@ use crate::attachment::AttachmentOwner;
 use crate::footprint::Footprint;
 #[cfg(any(debug_assertions, feature = "footprint_enforce_release"))]
 #[cfg(not(feature = "unsafe_graph"))]
+use crate::graph::GraphStore;
+#[cfg(any(debug_assertions, feature = "footprint_enforce_release"))]
+#[cfg(not(feature = "unsafe_graph"))]
 use crate::tick_patch::WarpOp;
 #[cfg(any(debug_assertions, feature = "footprint_enforce_release"))]
 #[cfg(not(feature = "unsafe_graph"))]
@@ -314,6 +317,28 @@ pub(crate) fn op_write_targets(op: &WarpOp) -> OpTargets {
     }
 }
 
+#[cfg(any(debug_assertions, feature = "footprint_enforce_release"))]
+#[cfg(not(feature = "unsafe_graph"))]
+/// State-dependent write target of an edge upsert that [`op_write_targets`] cannot see.
+///
+/// An `UpsertEdge` whose id is already stored in `store` under a *different* source node
+/// moves the edge: besides adding it to the adjacency of `record.from`, it removes it from
+/// the outgoing adjacency of the previous source. That adjacency is observable through
+/// `GraphView::edges_from`, so the previous source is a node write target as well and must
+/// be declared in `n_write`. Returns that node, or `None` when the op moves nothing.
+pub(crate) fn moved_edge_previous_source(store: &GraphStore, op: &WarpOp) -> Option<NodeId> {
+    if let WarpOp::UpsertEdge { warp_id, record } = op {
+        if *warp_id == store.warp_id() {
+            return store
+                .edge_index
+                .get(&record.id)
+                .copied()
+                .filter(|prev_from| *prev_from != record.from);
+        }
+    }
+    None
+}
+
 // ─────────────────────────────────────────────────────────────────────────────
 // FootprintGuard: runtime enforcement of declared footprints
 // ─────────────────────────────────────────────────────────────────────────────
@@ -553,6 +578,24 @@ impl FootprintGuard {
                     warp_id: self.warp_id,
                     kind: ViolationKind::AttachmentWriteNotDeclared(*a),
                     op_kind: targets.kind_str,
+                });
+            }
+        }
+    }
+
+    /// Validates a single emitted op against the write footprint, given the pre-state
+    /// `store` of the guard's warp: [`Self::check_op`], plus the state-dependent target of
+    /// an edge upsert that moves an existing edge (see [`moved_edge_previous_source`]).
+    #[track_caller]
+    pub(crate) fn check_op_in(&self, store: &GraphStore, op: &WarpOp) {
+        self.check_op(op);
+        if let Some(prev_from) = moved_edge_previous_source(store, op) {
+            if !self.nodes_write.contains(&prev_from) {
+                std::panic::panic_any(FootprintViolation {
+                    rule_name: self.rule_name,
+                    warp_id: self.warp_id,
+                    kind: ViolationKind::NodeWriteNotDeclared(prev_from),
+                    op_kind: op_kind_str(op),
                 });
             }
         }
